@@ -16,7 +16,7 @@ pub static PROP: Prop = Prop { id: "C19", level, run, replay, gate, both_profile
 fn level(t: Tier) -> Level {
     Level {
         category: "model_checking",
-        rule: if t.thorough() { "lock-step product over model ROW (2 aircraft): base in {default,-U,-R} against base + each of {-i '', -i aAews, -i e, -o dV, -o N, -c, -u -1, -u 0, -D file, -O other} to depth 3; default vs -U on the valid-value DF4/5/11/17 sub-alphabet (34 actions incl. ticks) to depth 4; the five bundled recordings as long histories under every presentation pair (in-process and through the release CLI)" } else { "lock-step product over model ROW (2 aircraft): base in {default,-U,-R} against base + each of {-i '', -i aAews, -i e, -o dV, -o N, -c, -u -1, -u 0, -D file, -O other} to depth 2; default vs -U on the valid-value DF4/5/11/17 sub-alphabet (34 actions incl. ticks) to depth 3; the five bundled recordings as long histories under every presentation pair (in-process and through the release CLI)" },
+        rule: if t.thorough() { "lock-step product over model ROW (2 aircraft): base in {default,-U,-R} against base + each of {-i '', -i aAews, -i e, -o dV, -o N, -c, -u -1, -u 0, -D file, -O other, -i '' -u -1, -i aAews -u -1 -c -o dV} to depth 3; default vs -U on the valid-value DF4/5/11/17 sub-alphabet (40 actions incl. ticks and boundary-valued frames: squawk 0000, 0 ft, 0 kt, 0 ft/min) to depth 4; the five bundled recordings as long histories under every presentation pair (in-process and through the release CLI)" } else { "lock-step product over model ROW (2 aircraft): base in {default,-U,-R} against base + each of {-i '', -i aAews, -i e, -o dV, -o N, -c, -u -1, -u 0, -D file, -O other, -i '' -u -1, -i aAews -u -1 -c -o dV} to depth 2; default vs -U on the valid-value DF4/5/11/17 sub-alphabet (40 actions incl. ticks and boundary-valued frames: squawk 0000, 0 ft, 0 kt, 0 ft/min) to depth 3; the five bundled recordings as long histories under every presentation pair (in-process and through the release CLI)" },
         assumptions: vec![
             "presentation pairs: tables must be bit-identical after every step (distance excluded for -O); -U pair: callsign, altitude, squawk, position, ground speed, track, vertical rate, category, surveillance status must be equal".into(),
             "in-process runs apply -O the way main() does (set_observer_coords_from_str before the reader starts); -M/-l are exercised through the CLI".into(),
@@ -33,6 +33,7 @@ fn gate(p: &Partial, _t: Tier) -> Result<(), String> {
     super::need(p, "U-pair-step", 10_000)?;
     super::need(p, "U-pair-step:state-changed", 1000)?;
     super::need(p, "recording-pair", 20)?;
+    super::need(p, "sweep-family-pair", 20)?;
     if p.traces_validated < 10 {
         return Err("fewer than 10 CLI comparisons".into());
     }
@@ -52,6 +53,9 @@ fn variants(scratch: &std::path::Path) -> Vec<(&'static str, Vec<String>)> {
         ("-u 0", s(&["-u", "0"])),
         ("-D file", vec!["-D".into(), scratch.join("dl.log").to_string_lossy().into_owned()]),
         ("-O other", s(&["--observer-coord=-33.9, 151.2"])),
+        // combinations: the table is really drawn after every frame
+        ("-i '' -u -1", s(&["-i", "", "--update=-1"])),
+        ("-i aAews -u -1 -c -o dV", s(&["-i", "aAews", "--update=-1", "-c", "-o", "dV"])),
     ]
 }
 
@@ -85,7 +89,27 @@ fn project(rows: &[Snap]) -> Proj {
 }
 
 /// the valid-value DF4/5/11/17 sub-alphabet of model ROW
+/// valid frames whose carried value is the boundary "zero" of its encoding
+fn boundary_actions() -> Vec<Action> {
+    use crate::frames::{self, Vel};
+    let a = rowmodel::ADDR[0];
+    vec![
+        Action::line("A:DF5 0000", &frames::df5(a, frames::id13_for_squawk(0))),
+        Action::line("A:DF4 0ft", &frames::df4(a, frames::ac13_for_alt(0))),
+        Action::line("A:TC11 0ft even p1", &rowmodel::pos_frame(17, a, 11, 0, rowmodel::P1, false)),
+        Action::line("A:TC19 0kt 0fpm", &frames::df17(5, a, frames::me_velocity(&Vel { st: 1, vew: 1, vns: 1, vr: 1, ..Default::default() }))),
+        Action::line("A:TC19 north 1kt", &frames::df17(5, a, frames::me_velocity(&Vel { st: 1, vew: 1, vns: 2, vrsign: 1, vr: 2, ..Default::default() }))),
+        Action::line("A:TC1 cat0 callsign A", &frames::df17(0, a, frames::me_ident(1, 0, frames::callsign_codes("A")))),
+    ]
+}
+
 fn u_alphabet() -> Vec<Action> {
+    let mut v = u_alphabet_base();
+    v.extend(boundary_actions());
+    v
+}
+
+fn u_alphabet_base() -> Vec<Action> {
     let keep = ["DF11 CA5", "DF4 31000ft", "DF4 9000ft", "DF5 4521", "DF5 1000", "TC4 EIN45F cat3", "TC4 RYR9AB cat5", "TC4 EIN45F cat5", "TC11 even p1", "TC11 odd p1", "TC11 even p2", "TC11 odd p2", "TC6 surface", "TC19 v1", "TC19 v2", "TC19 st3", "TC29", "TC31 v2"];
     rowmodel::row_alphabet(2).into_iter().filter(|a| a.name.starts_with("tick") || keep.iter().any(|k| a.name.split_once(':').is_some_and(|(_, n)| n == *k))).collect()
 }
@@ -165,6 +189,7 @@ fn rec_cfg(base: &[&str], extra: &[String], rec: &str) -> Cfg {
 }
 
 fn run_recording(cfg: &Cfg) -> (crate::run::Outcome, Vec<Snap>) {
+    crate::run::describe_current(&format!("C19 recording {} under [{}]", cfg.path.display(), cfg.label()));
     set_observer_like_main(cfg);
     let t = new_table();
     let o = crate::run::run_path(cfg, &t);
@@ -193,6 +218,11 @@ fn run_recordings(ctx: &mut Ctx, job: &mut u64) {
             }
             let (ob, rb) = run_recording(&rec_cfg(base, &[], rec));
             for (name, extra) in variants(&scratch) {
+                // drawing the whole table after every frame of a 100 k-line recording takes minutes:
+                // the draw-every-frame combinations run on the short recordings only
+                if extra.iter().any(|x| x == "--update=-1") && extra.len() > 1 && matches!(rec, "squitters.txt" | "sbs2.txt") {
+                    continue;
+                }
                 let (ov, rv) = run_recording(&rec_cfg(base, &extra, rec));
                 ctx.eval();
                 ctx.count("recording-pair");
@@ -252,6 +282,47 @@ fn run_recordings(ctx: &mut Ctx, job: &mut u64) {
     }
 }
 
+/// a 30-frame stream of 6 aircraft with -d 0: every sweep empties the table, so the final table
+/// shows when the sweeps happened; presentation options must not move them
+fn run_sweep_family(ctx: &mut Ctx, job: &mut u64) {
+    use crate::frames;
+    let scratch = crate::run::scratch_dir().clone();
+    let mut lines: Vec<Vec<u8>> = vec![];
+    for k in 0..30u32 {
+        let a = 0x400200 + (k % 6);
+        lines.push(if k % 2 == 0 { frames::df11(5, a, 0) } else { frames::df4(a, frames::ac13_for_alt(500 * (1 + k as i32))) }.hex().into_bytes());
+    }
+    let content = crate::run::join_lines(&lines);
+    for base in [&["-d", "0"][..], &["-d", "0", "-U"][..]] {
+        *job += 1;
+        if !ctx.mine(*job) {
+            continue;
+        }
+        let cb = mkcfg(base, &[]);
+        set_observer_like_main(&cb);
+        let tb = new_table();
+        let ob = run_file(&cb, &content, &tb);
+        let rb = snapshot(&tb);
+        for (name, extra) in variants(&scratch) {
+            let cv = mkcfg(base, &extra);
+            set_observer_like_main(&cv);
+            let tv = new_table();
+            let ov = run_file(&cv, &content, &tv);
+            let rv = snapshot(&tv);
+            ctx.eval();
+            ctx.count("sweep-family-pair");
+            if ov != ob || mask_dist(&rv) != mask_dist(&rb) {
+                ctx.violation(
+                    &format!("C19/sweep/{name}"),
+                    &format!("base {}", base.join(" ")),
+                    || format!("30-frame stream with [{}]: {} rows ({:X?}); with {name} added: {} rows ({:X?})", base.join(" "), rb.len(), rb.iter().map(|r| r.key).collect::<Vec<_>>(), rv.len(), rv.iter().map(|r| r.key).collect::<Vec<_>>()),
+                    || json!({"kind": "sweep", "base": base, "variant": name}),
+                );
+            }
+        }
+    }
+}
+
 fn run(ctx: &mut Ctx) {
     if let Err(e) = cli::available() {
         ctx.machinery(e);
@@ -263,6 +334,7 @@ fn run(ctx: &mut Ctx) {
     }
     run_u_pair(ctx, if thorough { 4 } else { 3 });
     let mut job = 0u64;
+    run_sweep_family(ctx, &mut job);
     run_recordings(ctx, &mut job);
     ctx.sample(|| json!({"pair": ["default", "default + -c"], "history": ["A:DF11 CA5", "B:TC19 v1"], "expected": "bit-identical tables after every step"}));
     ctx.sample(|| json!({"pair": ["default", "-U"], "history": ["A:TC11 even p1", "tick 4000 ms", "A:TC11 odd p1", "A:TC19 v1"], "expected": "equal callsign/altitude/squawk/position/speed/track/vrate/category/status"}));
@@ -328,6 +400,15 @@ fn replay(ctx: &mut Ctx, case: &Value) {
             if ov != ob || !same {
                 ctx.violation("C19/recording", "replay", || "tables differ".into(), || case.clone());
             }
+        }
+        Some("sweep") => {
+            let mut job = 0u64;
+            let (p, n) = (ctx.part, ctx.nparts);
+            ctx.part = 0;
+            ctx.nparts = 1;
+            run_sweep_family(ctx, &mut job);
+            ctx.part = p;
+            ctx.nparts = n;
         }
         Some("cli") => {
             crate::run::say("CLI comparison: re-run ./check C19 to reproduce");
